@@ -19,6 +19,8 @@ META = {
               "native replay of a position_cmd counterexample uses NO stub: the real FEN reader and the real generator run on the FEN text of the counterexample position"],
     "bounds": ["move lists of up to 5 arbitrary moves", "single-move text: ALL 7-bit ASCII strings of length 4 and of length 5",
                "position command harnesses: every loop unwound at most 9 times (memcmp 200) with unwinding assertions - a bound, not an assumption",
+               "command sequences: two commands on one engine, same FEN, move lists of length 0 or 1 (take-back, extension, same/other move); the game held before "
+               "the first command is a kings-only position whose key differs from the FEN's",
                "position command: ONE move after the FEN, from ANY valid position (no piece-count bound), split by moving kind x side; longer move lists follow by "
                "induction over the handler's loop only if the loop treats every element alike (not checked beyond one iteration)"],
     "outside": ["parsing of whole 'position ... moves ...' command lines (nom over long strings, Vec, String) and reading the FEN text (C06, string code) "
@@ -34,7 +36,8 @@ MANIFEST = {
             "every move encoding; (3) the single-move parser accepts exactly [a-h][1-8][a-h][1-8][nbrq]? in lower case, with the right squares and promotion piece, "
             "over ALL ASCII strings of length 4 and 5; (4) the real `position` handler (Uci::execute) applied to 'fen <any valid position> moves <m>' for any "
             "legal m (split by moving kind x side) ends in exactly the game the rules prescribe - placement, side, rights, en-passant target, clocks, history "
-            "length, all three board views - with the FEN reader and the generator replaced by contract stubs (their content is C06 / C01). Whole command "
+            "length, all three board views - with the FEN reader and the generator replaced by contract stubs (their content is C06 / C01); (5) two position commands on ONE "
+            "engine ('F m' then 'F'; 'F' then 'F m'; 'F m' then 'F m2') end in the game of the last command alone. Whole command "
             "lines as text and move lists longer than one move are NOT claimed.",
     "note": "Command-line text parsing, FEN text reading and move lists longer than one move outside the claim; output formatting (format!) outside.",
     "design_ref": "DESIGN.md s.4 C17",
